@@ -239,6 +239,10 @@ class FakeSession:
     def query(self, cls):
         return FakeQuery(self.rows)
 
+    def add(self, obj):
+        if not any(r is obj for r in self.rows):
+            self.rows.append(obj)
+
     def rollback(self):
         self.rolled_back += 1
 
